@@ -82,10 +82,17 @@ Section Layout.
       | PPqs => forall e, In e (b_events b) -> ingest_match q e = matches q e
       end.
 
-  (* the record-level loop applies NegateMatch (filtersearch.go), the dictionary path does not *)
+  (* NegateMatch: the record-level loop of filterRecordsFromSearchQuery flips the result per record; the
+     dictionary search marks the records that hold a hit and, for a negated match, the record loop is always
+     run afterwards and flips those marks *)
   Definition rec_search_neg (neg : bool) (q : query) (evs : list event) : list event :=
     filter (fun e => xorb neg (mword q (col q e))) evs.
   Definition dict_search_neg (neg : bool) (q : query) (evs : list event) : list event :=
+    let hits := filter (mword q) (nodupb (map (col q) evs)) in
+    filter (fun e => xorb neg (existsb (veqb (col q e)) hits)) evs.
+  (* PRE-FIX: when every searched column of the block was dictionary encoded the record loop was skipped and
+     NegateMatch never applied *)
+  Definition dict_search_neg_prefix (neg : bool) (q : query) (evs : list event) : list event :=
     dict_search q evs.
 End Layout.
 
